@@ -150,6 +150,24 @@ CLAIMS = {
         note=TRUST + "Cranelift's own code and IR verifier are trusted; code size < 2^31 assumed from the instruction limit.",
         technique="MIR abstract interpretation (panic inventory) + structural set rules over THIR summaries",
         design="5/C12"),
+    "C13": dict(
+        category="proof",
+        text="The assembler's mnemonic table, obtained by constant-folding make_instruction_map (92 entries), equals the reference "
+             "table (name -> instruction type, size payload, base opcode); for all 14 instruction types x 20 operand shapes `encode` "
+             "places each operand in the documented field with the documented source bit or returns Err; out-of-range register, "
+             "offset and immediate values reach Err; lddw emits the high half in a second slot; no bytes are produced on any Err path.",
+        note=TRUST + "the combine parser's accepted language is trusted (grammar literals are checked structurally).",
+        technique="constant folding of the mnemonic table + THIR symbolic evaluation of encode per operand shape",
+        design="5/C13"),
+    "C16": dict(
+        category="proof",
+        text="Per opcode, symbolically in the instruction fields: the disassembler's rendered text (format pieces tied to the fields "
+             "they print) tokenised with the assembler's operand grammar, looked up in the folded mnemonic table and pushed through "
+             "`encode` yields the same opcode, the same used fields and zero unused fields; negative 32-bit immediates reach the "
+             "assembler's range error, never a different instruction; only atomic add and tail call have no assembler spelling.",
+        note=TRUST + "alloc::fmt integer formatting and the combine parser's token language are trusted.",
+        technique="THIR symbolic evaluation of renderer and encoder composed through a token-level grammar model",
+        design="5/C16"),
     "C15": dict(
         category="proof",
         text="For each of the 123 supported opcodes the disassembler loop body pushes exactly one HLInsn whose opc/dst/src/off are "
